@@ -289,6 +289,40 @@ func refTidyUnit(u string) string {
 	return string(out)
 }
 
+// refTidyFactor: 1e-9 per "ns" and 1e6 per "MB" component in the numerator.
+func refTidyFactor(u string) float64 {
+	f := 1.0
+	denom := false
+	tok := ""
+	flush := func() {
+		if !denom {
+			switch tok {
+			case "ns":
+				f *= 1e-9
+			case "MB":
+				f *= 1e6
+			}
+		}
+		tok = ""
+	}
+	for i := 0; i < len(u); i++ {
+		switch u[i] {
+		case '*':
+			flush()
+			denom = false
+		case '/':
+			flush()
+			denom = true
+		case '-':
+			flush()
+		default:
+			tok += string(u[i])
+		}
+	}
+	flush()
+	return f
+}
+
 // refUnicodeLower/Upper cover the scripts the generator uses (ASCII, Latin-1,
 // basic Cyrillic, Latin Extended-B titlecase digraphs are neither).
 func refUnicodeLower(r rune) bool {
